@@ -1433,4 +1433,405 @@ theorem eq_of_nodup_map {α β : Type} {f : α → β} {l : List α} (h : (l.map
     · exact absurd (List.mem_map.2 ⟨a, ha', hab⟩) h.1
     · exact ih h.2 ha' hb'
 
+/-! ## order of `zrangeUpTo` -/
+
+/-- `(score, id)` order of queue entries -/
+def zlt (y x : Nat × Int) : Prop := y.2 < x.2 ∨ (y.2 = x.2 ∧ y.1 < x.1)
+
+theorem zlt_trans {a b c : Nat × Int} (h1 : zlt a b) (h2 : zlt b c) : zlt a c := by
+  unfold zlt at *; omega
+
+theorem zlt_of_not {a b : Nat × Int} (h : ¬ zlt a b) (hne : a.1 ≠ b.1) : zlt b a := by
+  unfold zlt at *; omega
+
+theorem zins_sorted (x : Nat × Int) (acc : List (Nat × Int)) (hs : acc.Pairwise zlt) (hne : ∀ y ∈ acc, y.1 ≠ x.1) :
+    (zins x acc).Pairwise zlt := by
+  rw [zins_eq]
+  have hdrop : ∀ z ∈ acc.dropWhile (fun y => Decidable.decide (y.2 < x.2 ∨ (y.2 = x.2 ∧ y.1 < x.1))), zlt x z := by
+    induction acc with
+    | nil => intro z hz; cases hz
+    | cons h t ih =>
+      intro z hz
+      rw [List.pairwise_cons] at hs
+      rw [List.dropWhile_cons] at hz
+      by_cases hp : (h.2 < x.2 ∨ (h.2 = x.2 ∧ h.1 < x.1))
+      · simp only [hp, decide_true, if_true] at hz
+        exact ih hs.2 (fun y hy => hne y (List.mem_cons_of_mem _ hy)) z hz
+      · simp only [hp, decide_false] at hz
+        have hxh : zlt x h := zlt_of_not hp (hne h List.mem_cons_self)
+        rcases List.mem_cons.1 hz with rfl | hz'
+        · exact hxh
+        · exact zlt_trans hxh (hs.1 z hz')
+  rw [List.pairwise_append]
+  refine ⟨hs.sublist (List.takeWhile_sublist _), ?_, ?_⟩
+  · rw [List.pairwise_cons]
+    exact ⟨hdrop, hs.sublist (List.dropWhile_sublist _)⟩
+  · intro a ha b hb
+    have hax : zlt a x := by
+      have := List.all_eq_true.1 (List.all_takeWhile (l := acc) (p := fun y => Decidable.decide (y.2 < x.2 ∨ (y.2 = x.2 ∧ y.1 < x.1)))) a ha
+      simpa [zlt] using this
+    rcases List.mem_cons.1 hb with rfl | hb'
+    · exact hax
+    · exact zlt_trans hax (hdrop b hb')
+
+theorem zsort_sorted (sel : List (Nat × Int)) (hnd : (sel.map (·.1)).Nodup) : (zsort sel).Pairwise zlt := by
+  induction sel with
+  | nil => exact List.Pairwise.nil
+  | cons x xs ih =>
+    rw [List.map_cons, List.nodup_cons] at hnd
+    show (zins x (zsort xs)).Pairwise zlt
+    refine zins_sorted x _ (ih hnd.2) ?_
+    intro y hy hyx
+    have hy' : y ∈ xs := (zsort_perm xs).mem_iff.1 hy
+    exact hnd.1 (hyx ▸ List.mem_map.2 ⟨y, hy', rfl⟩)
+
+/-- order relation between two ids as long as both are still in the score map -/
+def QLt (m : ExtTreeMap Nat Int) (y z : Nat) : Prop :=
+  ∀ ry rz, m[y]? = some ry → m[z]? = some rz → zlt (y, ry) (z, rz)
+
+theorem zall_sorted (m : ExtTreeMap Nat Int) (hi : Option Int) : (zall m hi).Pairwise (QLt m) := by
+  unfold zall
+  rw [List.pairwise_map]
+  refine List.Pairwise.imp_of_mem ?_ (zsort_sorted _ (zsel_keys_nodup m hi))
+  intro a b ha hb hab ry rz hry hrz
+  have ha' := (mem_zsel.1 ((zsort_perm _).mem_iff.1 ha)).1
+  have hb' := (mem_zsel.1 ((zsort_perm _).mem_iff.1 hb)).1
+  rw [ha'] at hry; rw [hb'] at hrz
+  cases hry; cases hrz
+  exact hab
+
+/-- the ids a `ZRANGEBYSCORE −inf..b LIMIT 0 k` returns are in `(score, id)` order, and every one of them precedes every
+queued id that was not returned -/
+theorem zrangeUpTo_order (m : ExtTreeMap Nat Int) (b : Int) (k : Nat) :
+    (zrangeUpTo m (some b) (some k)).Pairwise (QLt m) ∧
+    ∀ y ∈ zrangeUpTo m (some b) (some k), ∀ x, x ∉ zrangeUpTo m (some b) (some k) → QLt m y x := by
+  have hs := zall_sorted m (some b)
+  rw [zrangeUpTo_eq]
+  show ((zall m (some b)).take k).Pairwise (QLt m) ∧ ∀ y ∈ (zall m (some b)).take k, ∀ x, x ∉ (zall m (some b)).take k → QLt m y x
+  refine ⟨hs.sublist (List.take_sublist _ _), ?_⟩
+  intro y hy x hx ry rx hry hrx
+  by_cases hrb : rx ≤ b
+  · have hxa : x ∈ zall m (some b) := mem_zall.2 ⟨rx, hrx, fun h hh => by cases hh; exact hrb⟩
+    rw [← List.take_append_drop k (zall m (some b))] at hxa hs
+    rcases List.mem_append.1 hxa with h1 | h1
+    · exact absurd h1 hx
+    · exact (List.pairwise_append.1 hs).2.2 y hy x h1 ry rx hry hrx
+  · obtain ⟨r, hr, hb⟩ := mem_zall.1 ((List.take_sublist _ _).subset hy)
+    rw [hry] at hr; cases hr
+    have := hb b rfl
+    left; show ry < rx; omega
+
+/-! ## batch order invariant -/
+
+/-- `(score, id)` order between two pop records -/
+def PLt (a b : GPop) : Prop := ∀ ra rb, a.ready = some ra → b.ready = some rb → zlt (a.id, ra) (b.id, rb)
+
+/-- a pop record precedes a queued id -/
+def PQLt (m : ExtTreeMap Nat Int) (d : GPop) (x : Nat) : Prop :=
+  ∀ rd rx, d.ready = some rd → m[x]? = some rx → zlt (d.id, rd) (x, rx)
+
+def myPops (i : Nat) (pops : List GPop) : List GPop := pops.filter fun d => d.client == i
+
+theorem QLt.mono {m m' : ExtTreeMap Nat Int} {y z : Nat} (h : QLt m y z)
+    (hy : ∀ r, m'[y]? = some r → m[y]? = some r) (hz : ∀ r, m'[z]? = some r → m[z]? = some r) : QLt m' y z :=
+  fun ry rz h1 h2 => h ry rz (hy ry h1) (hz rz h2)
+
+/-- the records consumer `i` has popped are in `(score, id)` order, all precede everything still queued, and the ids it is
+about to pop (between a range and its batch) are in order and precede every other queued id -/
+structure SInv (g : GSys) (i : Nat) : Prop where
+  sorted : (myPops i g.pops).Pairwise PLt
+  below : ∀ d ∈ myPops i g.pops, ∀ x, PQLt g.sys.store.pQueue d x
+  pend : ∀ c got e ids, g.sys.clients[i]? = some c → c.started = true → c.pc = .popExec got e ids →
+    ids.Pairwise (QLt g.sys.store.pQueue) ∧ ∀ y ∈ ids, ∀ x, x ∉ ids → QLt g.sys.store.pQueue y x
+
+theorem QSys.cur_popExec {s : QSys} {i : Nat} {c : QClient} {got : List Probe} {e : Nat} {ids : List Nat}
+    (h : s.cur i = some c) (hpc : c.pc = .popExec got e ids) :
+    ∃ c0, s.clients[i]? = some c0 ∧ c0.started = true ∧ c0.pc = .popExec got e ids := by
+  obtain ⟨c0, h0, _, rfl⟩ := QSys.cur_some h
+  refine ⟨c0, h0, ?_⟩
+  unfold QClient.start at hpc
+  by_cases hs : c0.started = true
+  · simp only [hs, if_true] at hpc; exact ⟨hs, hpc⟩
+  · simp only [hs] at hpc
+    exact absurd hpc (QOp.begin_ne_popExec _ _ _ _)
+
+theorem SInv.cur {g : GSys} {i : Nat} (h : SInv g i) {c : QClient} {got : List Probe} {e : Nat} {ids : List Nat}
+    (hc : g.sys.cur i = some c) (hpc : c.pc = .popExec got e ids) :
+    ids.Pairwise (QLt g.sys.store.pQueue) ∧ ∀ y ∈ ids, ∀ x, x ∉ ids → QLt g.sys.store.pQueue y x := by
+  obtain ⟨c0, h0, hs, hp⟩ := QSys.cur_popExec hc hpc
+  exact h.pend c0 got e ids h0 hs hp
+
+theorem set_getElem?_cases {α : Type} {l : List α} {j i : Nat} {a ci : α} (h : (l.set j a)[i]? = some ci) :
+    (j = i ∧ ci = a) ∨ (j ≠ i ∧ l[i]? = some ci) := by
+  rw [List.getElem?_set] at h
+  by_cases hji : j = i
+  · subst hji
+    simp only [if_true] at h
+    split at h
+    · cases h; exact Or.inl ⟨rfl, rfl⟩
+    · cases h
+  · simp only [hji, if_false] at h
+    exact Or.inr ⟨hji, h⟩
+
+theorem myPops_append_other {i j : Nat} (pops new : List GPop) (hnew : ∀ d ∈ new, d.client = j) (hji : j ≠ i) :
+    myPops i (pops ++ new) = myPops i pops := by
+  unfold myPops
+  rw [List.filter_append]
+  have : new.filter (fun d => d.client == i) = [] := by
+    rw [List.filter_eq_nil_iff]
+    intro d hd
+    have := hnew d hd
+    simp [this, hji]
+  rw [this, List.append_nil]
+
+theorem myPops_append_self {i : Nat} (pops new : List GPop) (hnew : ∀ d ∈ new, d.client = i) :
+    myPops i (pops ++ new) = myPops i pops ++ new := by
+  unfold myPops
+  rw [List.filter_append]
+  congr 1
+  rw [List.filter_eq_self]
+  intro d hd
+  simp [hnew d hd]
+
+theorem popRecs_sorted {s : QSys} {i : Nat} {ids : List Nat} (h : ids.Pairwise (QLt s.store.pQueue)) :
+    (s.popRecs i ids).Pairwise PLt := by
+  unfold QSys.popRecs
+  refine List.Pairwise.filterMap _ ?_ h
+  intro y z hyz b hb b' hb'
+  simp only [Option.map_eq_some_iff] at hb hb'
+  obtain ⟨pe, _, rfl⟩ := hb
+  obtain ⟨pe', _, rfl⟩ := hb'
+  exact hyz
+
+theorem SInv.gstep {g g' : GSys} {i : Nat} (hG : GInv g) (h : SInv g i) (hs : GStep g g')
+    (henq : ∀ e, g'.enqs = g.enqs ++ [e] → TInv g ∧ e.clk ≤ e.ready) : SInv g' i := by
+  cases hs with
+  | same => exact h
+  | setc j c c' hc hop hpc hst harr hpop =>
+    refine ⟨h.sorted, h.below, ?_⟩
+    intro ci got e ids hci hsi hpi
+    rcases set_getElem?_cases hci with ⟨rfl, rfl⟩ | ⟨_, hci'⟩
+    · rw [hpc] at hpi; exact h.cur hc hpi
+    · exact h.pend ci got e ids hci' hsi hpi
+  | other j c c' st' hc hnp hI hQ hcons hop hpc1 hpc2 hst harr hpop =>
+    refine ⟨h.sorted, ?_, ?_⟩
+    · show ∀ d ∈ myPops i g.pops, ∀ x, PQLt st'.pQueue d x
+      rw [hQ]; exact h.below
+    · intro ci got e ids hci hsi hpi
+      show ids.Pairwise (QLt st'.pQueue) ∧ ∀ y ∈ ids, ∀ x, x ∉ ids → QLt st'.pQueue y x
+      rw [hQ]
+      rcases set_getElem?_cases hci with ⟨rfl, rfl⟩ | ⟨_, hci'⟩
+      · exact absurd hpi (hpc2 _ _ _)
+      · exact h.pend ci got e ids hci' hsi hpi
+  | range j c c' n got e hc hcop hcpc hop hpc hst harr hpop =>
+    refine ⟨h.sorted, h.below, ?_⟩
+    intro ci got' e' ids hci hsi hpi
+    rcases set_getElem?_cases hci with ⟨rfl, rfl⟩ | ⟨_, hci'⟩
+    · rw [hpc] at hpi
+      split at hpi
+      · cases hpi
+      · cases hpi
+        exact zrangeUpTo_order _ _ _
+    · exact h.pend ci got' e' ids hci' hsi hpi
+  | enq j c c' p after before hc hcop hcpc hop hpc hst harr hpop =>
+    obtain ⟨hT, hle⟩ := henq _ rfl
+    have hle : g.sys.clock ≤ readyOf after c.arrival := hle
+    have hget : ∀ (x : Nat) (rx : Int), (g.sys.store.pQueue.insert g.sys.fresh (readyOf after c.arrival))[x]? = some rx →
+        (x = g.sys.fresh ∧ rx = readyOf after c.arrival) ∨ (x ≠ g.sys.fresh ∧ g.sys.store.pQueue[x]? = some rx) := by
+      intro x rx
+      rw [ExtTreeMap.getElem?_insert]
+      by_cases hx : g.sys.fresh = x
+      · subst hx
+        simp only [compare_eq_iff_eq, if_true, Option.some.injEq]
+        intro hh; exact Or.inl ⟨trivial, hh.symm⟩
+      · simp only [compare_eq_iff_eq, hx, if_false]
+        intro hh; exact Or.inr ⟨fun e => hx e.symm, hh⟩
+    refine ⟨h.sorted, ?_, ?_⟩
+    · intro d hd x rd rx hrd hrx
+      have hdp : d ∈ g.pops := (List.mem_filter.1 hd).1
+      rcases hget x rx hrx with ⟨rfl, rfl⟩ | ⟨_, hrx'⟩
+      · obtain ⟨r, h1, h2, h3⟩ := hT.popT d hdp
+        rw [hrd] at h1; cases h1
+        have hlt := hG.popLt (List.mem_map.2 ⟨d, hdp, rfl⟩)
+        show rd < readyOf after c.arrival ∨ (rd = readyOf after c.arrival ∧ d.id < g.sys.fresh)
+        omega
+      · exact h.below d hd x rd rx hrd hrx'
+    · intro ci got e ids hci hsi hpi
+      rcases set_getElem?_cases hci with ⟨rfl, rfl⟩ | ⟨_, hci'⟩
+      · rw [hpc] at hpi; cases hpi
+      · obtain ⟨h1, h2⟩ := h.pend ci got e ids hci' hsi hpi
+        have hold := (hT.clients i ci hci').pend hsi got e ids hpi
+        have hsame : ∀ y ∈ ids, ∀ r, (g.sys.store.pQueue.insert g.sys.fresh (readyOf after c.arrival))[y]? = some r →
+            g.sys.store.pQueue[y]? = some r := by
+          intro y hy r hr
+          rcases hget y r hr with ⟨hyf, _⟩ | ⟨_, hr'⟩
+          · exact absurd (hyf ▸ (hold y hy).1) (Nat.lt_irrefl _)
+          · exact hr'
+        refine ⟨?_, ?_⟩
+        · exact List.Pairwise.imp_of_mem (fun {a b} hy hz hyz => hyz.mono (hsame a hy) (hsame b hz)) h1
+        · intro y hy x hx ry rx hry hrx
+          have hry' := hsame y hy ry hry
+          rcases hget x rx hrx with ⟨rfl, rfl⟩ | ⟨_, hrx'⟩
+          · have := (hold y hy).2 ry hry'
+            have := (hold y hy).1
+            show ry < readyOf after c.arrival ∨ (ry = readyOf after c.arrival ∧ y < g.sys.fresh)
+            omega
+          · exact h2 y hy x hx ry rx hry' hrx'
+  | exec j c c' n got e ids hc hcop hcpc hop hpc hst harr hpop =>
+    have hsub : ∀ (x : Nat) (r : Int), (g.sys.store.popBatch ids).1.pQueue[x]? = some r → x ∉ ids ∧ g.sys.store.pQueue[x]? = some r := by
+      intro x r
+      rw [popBatch_pQueue]
+      split
+      · intro hh; cases hh
+      · rename_i hx; exact fun hh => ⟨hx, hh⟩
+    by_cases hji : j = i
+    · subst hji
+      obtain ⟨hA, hB⟩ := h.cur hc hcpc
+      have hmy : myPops j (g.pops ++ g.sys.popRecs j ids) = myPops j g.pops ++ g.sys.popRecs j ids :=
+        myPops_append_self _ _ (fun d hd => popRecs_client hd)
+      refine ⟨?_, ?_, ?_⟩
+      · show (myPops j (g.pops ++ g.sys.popRecs j ids)).Pairwise PLt
+        rw [hmy, List.pairwise_append]
+        refine ⟨h.sorted, popRecs_sorted hA, ?_⟩
+        intro a ha b hb
+        obtain ⟨y, _, pe, _, rfl⟩ := mem_popRecs.1 hb
+        exact h.below a ha y
+      · show ∀ d ∈ myPops j (g.pops ++ g.sys.popRecs j ids), ∀ x, PQLt (g.sys.store.popBatch ids).1.pQueue d x
+        rw [hmy]
+        intro d hd x rd rx hrd hrx
+        obtain ⟨hx, hrx'⟩ := hsub x rx hrx
+        rcases List.mem_append.1 hd with hd | hd
+        · exact h.below d hd x rd rx hrd hrx'
+        · obtain ⟨y, hy, pe, _, rfl⟩ := mem_popRecs.1 hd
+          exact hB y hy x hx rd rx hrd hrx'
+      · intro ci got' e' ids' hci hsi hpi
+        rcases set_getElem?_cases hci with ⟨_, rfl⟩ | ⟨hne, _⟩
+        · rw [hpc] at hpi; exact absurd hpi (popNext_ne_popExec _ _ _ _ _ _ _ _)
+        · exact absurd rfl hne
+    · have hmy : myPops i (g.pops ++ g.sys.popRecs j ids) = myPops i g.pops :=
+        myPops_append_other _ _ (fun d hd => popRecs_client hd) hji
+      refine ⟨?_, ?_, ?_⟩
+      · show (myPops i (g.pops ++ g.sys.popRecs j ids)).Pairwise PLt
+        rw [hmy]; exact h.sorted
+      · show ∀ d ∈ myPops i (g.pops ++ g.sys.popRecs j ids), ∀ x, PQLt (g.sys.store.popBatch ids).1.pQueue d x
+        rw [hmy]
+        intro d hd x rd rx hrd hrx
+        exact h.below d hd x rd rx hrd (hsub x rx hrx).2
+      · intro ci got' e' ids' hci hsi hpi
+        rcases set_getElem?_cases hci with ⟨hji', _⟩ | ⟨_, hci'⟩
+        · exact absurd hji' hji
+        · obtain ⟨h1, h2⟩ := h.pend ci got' e' ids' hci' hsi hpi
+          exact ⟨h1.imp (fun hyz => hyz.mono (fun r hr => (hsub _ r hr).2) (fun r hr => (hsub _ r hr).2)),
+            fun y hy x hx => (h2 y hy x hx).mono (fun r hr => (hsub _ r hr).2) (fun r hr => (hsub _ r hr).2)⟩
+
+theorem GStep.enqs {g g' : GSys} (hs : GStep g g') : g'.enqs = g.enqs ∨ ∃ e, g'.enqs = g.enqs ++ [e] := by
+  cases hs with
+  | enq => exact Or.inr ⟨_, rfl⟩
+  | _ => exact Or.inl rfl
+
+/-- enqueues from log position `L` on have a ready time that is not in the past when they execute -/
+def LateOK (L : Nat) (enqs : List GEnq) : Prop := ∀ (k : Nat) (e : GEnq), L ≤ k → enqs[k]? = some e → e.clk ≤ e.ready
+
+theorem LateOK.prefix {L : Nat} {a b : List GEnq} (h : LateOK L (a ++ b)) : LateOK L a := by
+  intro k e hk he
+  have hlt : k < a.length := by
+    rcases Nat.lt_or_ge k a.length with h1 | h1
+    · exact h1
+    · rw [List.getElem?_eq_none h1] at he; cases he
+  exact h k e hk (by rw [List.getElem?_append_left hlt]; exact he)
+
+/-- invariant for `batch_sorted_conc` -/
+def ConcInv (L i : Nat) (g : GSys) : Prop :=
+  GInv g ∧ TInv g ∧ L ≤ g.enqs.length ∧ (LateOK L g.enqs → SInv g i)
+
+theorem ConcInv.gstep {L i : Nat} {g g' : GSys} (h : ConcInv L i g) (hs : GStep g g') : ConcInv L i g' := by
+  obtain ⟨hG, hT, hL, hS⟩ := h
+  refine ⟨hG.gstep hs, hT.gstep hG hs, ?_, ?_⟩
+  · rcases hs.enqs with h1 | ⟨e, h1⟩ <;> rw [h1]
+    · exact hL
+    · rw [List.length_append]; omega
+  · intro hok
+    rcases hs.enqs with h1 | ⟨e, h1⟩
+    · rw [h1] at hok
+      refine (hS hok).gstep hG hs ?_
+      intro e' he'
+      rw [h1] at he'
+      have := congrArg List.length he'
+      simp at this
+    · rw [h1] at hok
+      refine (hS hok.prefix).gstep hG hs ?_
+      intro e' he'
+      rw [h1] at he'
+      have he : e' = e := by simpa using he'.symm
+      subst he
+      exact ⟨hT, hok g.enqs.length e' hL (by simp)⟩
+
+theorem ConcInv.run {L i : Nat} {g : GSys} (h : ConcInv L i g) (es : List QSysEv) (hm : Monotone es) : ConcInv L i (g.run es) :=
+  GSys.run_induction (ConcInv L i) (fun d => 0 ≤ d) (fun _ h => h.1.okFor) (fun _ _ h hs => h.gstep hs)
+    (fun _ d h hd => ⟨h.1.tick d, h.2.1.tick d hd, h.2.2.1, fun hok => ⟨(h.2.2.2 hok).sorted, (h.2.2.2 hok).below, (h.2.2.2 hok).pend⟩⟩)
+    g es hm h
+
+/-- invariant for `batch_sorted_seq` (no assumption on the clock) -/
+def SeqInv (L i : Nat) (g : GSys) : Prop :=
+  GInv g ∧ L ≤ g.enqs.length ∧ (g.enqs.length ≤ L → SInv g i)
+
+theorem SeqInv.gstep {L i : Nat} {g g' : GSys} (h : SeqInv L i g) (hs : GStep g g') : SeqInv L i g' := by
+  obtain ⟨hG, hL, hS⟩ := h
+  refine ⟨hG.gstep hs, ?_, ?_⟩
+  · rcases hs.enqs with h1 | ⟨e, h1⟩ <;> rw [h1]
+    · exact hL
+    · rw [List.length_append]; omega
+  · intro hle
+    rcases hs.enqs with h1 | ⟨e, h1⟩
+    · rw [h1] at hle
+      refine (hS hle).gstep hG hs ?_
+      intro e' he'
+      rw [h1] at he'
+      have := congrArg List.length he'
+      simp at this
+    · rw [h1, List.length_append] at hle
+      simp at hle
+      omega
+
+theorem SeqInv.run {L i : Nat} {g : GSys} (h : SeqInv L i g) (es : List QSysEv) : SeqInv L i (g.run es) :=
+  GSys.run_induction (SeqInv L i) (fun _ => True) (fun _ h => h.1.okFor) (fun _ _ h hs => h.gstep hs)
+    (fun _ d h _ => ⟨h.1.tick d, h.2.1, fun hle => ⟨(h.2.2 hle).sorted, (h.2.2 hle).below, (h.2.2 hle).pend⟩⟩)
+    g es (fun e _ => by cases e <;> trivial) h
+
+/-- a consumer that has popped nothing and is not between a range and its batch satisfies the order invariant -/
+theorem SInv.ofFresh {g : GSys} {i : Nat} (hfresh : ∀ d ∈ g.pops, d.client ≠ i)
+    (hnot : ∀ c got e ids, g.sys.clients[i]? = some c → c.started = true → c.pc ≠ .popExec got e ids) : SInv g i := by
+  have : myPops i g.pops = [] := by
+    unfold myPops
+    rw [List.filter_eq_nil_iff]
+    intro d hd; simp [hfresh d hd]
+  refine ⟨(by rw [this]; exact List.Pairwise.nil), (by rw [this]; intro d hd; cases hd), ?_⟩
+  intro c got e ids hc hs hpc
+  exact absurd hpc (hnot c got e ids hc hs)
+
+theorem GSys.run_append (g : GSys) (es1 es2 : List QSysEv) : g.run (es1 ++ es2) = (g.run es1).run es2 := by
+  unfold GSys.run; rw [List.foldl_append]
+
+/-- from the order invariant to the order of the returned batch -/
+theorem SInv.batch {g : GSys} {i : Nat} (hG : GInv g) (h : SInv g i) :
+    (g.pops.filter fun d => d.client == i && d.returned).Pairwise
+      fun a b => ∃ ra rb, a.ready = some ra ∧ b.ready = some rb ∧ ra ≤ rb := by
+  have hsub : (g.pops.filter fun d => d.client == i && d.returned).Sublist (myPops i g.pops) := by
+    have : (g.pops.filter fun d => d.client == i && d.returned) = (myPops i g.pops).filter (fun d => d.returned) := by
+      unfold myPops
+      rw [List.filter_filter]
+      congr 1; funext d; exact Bool.and_comm _ _
+    rw [this]; exact List.filter_sublist
+  refine List.Pairwise.imp_of_mem ?_ (h.sorted.sublist hsub)
+  intro a b ha hb hab
+  have hap : a ∈ g.pops := (List.mem_filter.1 ha).1
+  have hbp : b ∈ g.pops := (List.mem_filter.1 hb).1
+  obtain ⟨ea, _, _, _, _, hra⟩ := hG.popSrc a hap
+  obtain ⟨eb, _, _, _, _, hrb⟩ := hG.popSrc b hbp
+  refine ⟨_, _, hra, hrb, ?_⟩
+  have := hab _ _ hra hrb
+  unfold zlt at this
+  simp only at this
+  omega
+
 end Swat4
